@@ -144,7 +144,7 @@ func (in *Interp) branch(th *Thread, c *Term, why string) bool {
 		return true
 	}
 	if rT == Unknown || rF == Unknown {
-		in.inconclusive("branch feasibility unknown (" + why + ")")
+		in.inconclusive("branch feasibility unknown (" + why + ") in " + in.where(th))
 	}
 	d := in.decide(Decision{Kind: 'B', N: 2}, why)
 	_ = d
@@ -261,6 +261,15 @@ func (in *Interp) recordFailure(th *Thread, f *Failure, cond *Term) {
 	if r != Sat {
 		if r == Unknown {
 			in.inconclusive("model for failure unknown: " + f.Label)
+		}
+		return
+	}
+	m, r = in.repairCRC(cond, m)
+	if r != Sat {
+		if r == Unknown {
+			in.inconclusive("checksum-consistent model for failure unknown: " + f.Label)
+		} else {
+			in.notes = append(in.notes, "counterexample needing a CRC collision dropped: "+f.Label)
 		}
 		return
 	}
